@@ -45,8 +45,9 @@ def run(ctx):
             node = cfg.node_of(c)
             ok = bool(wake) and cfg.must_pass(node, [w for w in wake if w is not node]) and cfg.must_pass(node, wake, targets=[cfg.raise_exit, cfg.exit])
             r1.check(ok, f"{m.rel}:{q}:release-then-wake", "resources are released without re-checking the jobs waiting for them on some path: a waiting job may never be re-nominated", m.rel, c.lineno)
-    if n < 2:
-        raise AnalysisError("fewer than 2 release sites", "Scheduler._release_resources")
+    if n < 1:
+        raise AnalysisError("no release site found", "Scheduler._release_resources")
+    r1.floor = 1
 
     r2 = ctx.rule("C09.2", "every lifecycle path hands the job on or finalises it; stopping without continuation only under dry-run", floor=8)
     results = lc.explore()
@@ -74,6 +75,41 @@ def run(ctx):
             key = f"{m.rel}:{lc.handlers[hkey].qual}:assert:{notes[-1][1]}"
             if key not in seen and not st.get("sched._dryrun") is None:
                 seen.add(key)
+    # C09.5: a job taken out of the wait queue consumes, is re-queued, or wakes the queue
+    r5 = ctx.rule("C09.5", "a re-nominated job that leaves without consuming its projected units wakes the wait queue", floor=2)
+    seen5 = set()
+    n5 = 0
+    for kind, trace in results:
+        for i, (hkey, ps, st, notes) in enumerate(trace):
+            if hkey != lc.EXEC or i == 0:
+                continue
+            prev = trace[i - 1]
+            if prev[0] != lc.EXEC or ("cont", "waitq") not in prev[1].events:
+                continue
+            n5 += 1
+            evs = ps.events
+            consumed = any(e[0] == "consume" for e in evs)
+            requeued = ("cont", "waitq") in evs
+            woke = any(e[0] == "call" and e[1] == "self._check_jobs_pending_limits" for e in evs)
+            if not (consumed or requeued or woke) and ps.exit_kind != "raise":
+                how = next((e[1] for e in evs if e[0] == "cont"), "return")
+                key = f"{m.rel}:{lc.EXEC}:nominated-exit-without-wake:{how}"
+                if key not in seen5:
+                    seen5.add(key)
+                    r5.violation(
+                        key,
+                        f"a job that waited for resource limits is re-nominated (the queue check projected units for it), re-enters the exec handler and leaves through `{how}` "
+                        "without consuming and without re-checking the wait queue: no release follows, so the jobs still queued are never woken although the resource is free",
+                        m.rel,
+                        lc.handlers[lc.EXEC].fn.lineno,
+                        describe_trace(trace[: i + 1]),
+                    )
+    if n5 == 0:
+        raise AnalysisError("no re-nomination trace found", "lifecycle")
+    if not seen5:
+        r5.good(f"{m.rel}:{lc.EXEC}:re-nominated-exits", f"{n5} re-entry steps consume, re-queue or wake")
+        r5.good(f"{m.rel}:{lc.EXEC}:re-nominated-exits:traces")
+
     col = m.func("Job.collapse")
     ok = any(last_attr(c) == "then" and "other_job.result_promise" in src(c) and len(c.args) == 2 for c in calls_in(col, shallow=True))
     r2.check(ok, f"{m.rel}:Job.collapse:driven-by-twin", "a collapsed job is not registered on the twin's result promise with both a result and an error callback", m.rel, col.lineno)
@@ -83,6 +119,27 @@ def run(ctx):
     loop = next((x for x in cj.body if isinstance(x, ast.For) and src(x.iter) == "self._jobs_pending_limits"), None)
     if loop is None:
         raise AnalysisError("_check_jobs_pending_limits: loop over the wait queue not found", "Scheduler._check_jobs_pending_limits")
+    # the scan is unconditional: no path reaches the exit without scanning the queue, unless the queue is empty
+    ccfg = CFG(cj)
+    lnode = next(n for n in ccfg.nodes if n.kind == "test" and n.ast is loop)
+    from ..cfg import facts_at as _facts_at
+
+    bypass = []
+    for n in ccfg.nodes:
+        if n.kind == "stmt" and isinstance(n.ast, ast.Return) and not ccfg.dominates(lnode, n):
+            facts = _facts_at(ccfg, n)
+            if ("self._jobs_pending_limits", False) not in facts and ("len(self._jobs_pending_limits) == 0", True) not in facts:
+                bypass.append(n)
+    ok_scan = ccfg.must_pass(ccfg.entry, [lnode] + [n for n in ccfg.nodes if n.kind == "stmt" and isinstance(n.ast, ast.Return) and n not in bypass and not ccfg.dominates(lnode, n)]) and not bypass
+    r3.check(
+        ok_scan,
+        f"{m.rel}:Scheduler._check_jobs_pending_limits:unconditional-scan",
+        "the wait-queue check can return without scanning the queue on a condition other than `the queue is empty`"
+        + (f" (`{src(bypass[0].ast)}` at line {bypass[0].lineno} under {sorted(f for f, t in _facts_at(ccfg, bypass[0]) if t)[:2]})" if bypass else "")
+        + ": a release that takes this exit wakes nobody, and a queued job whose blocking resource changed waits forever",
+        m.rel,
+        cj.lineno,
+    )
     tgt = src(loop.target)
     ifs = [x for x in loop.body if isinstance(x, ast.If)]
     ok = False
